@@ -3,5 +3,5 @@ NEXT Next
 INVARIANT Inv
 CONSTANTS
  ScriptLen = 2
- TableTypes = {"sym", "rel", "rela", "dyn", "u32", "versym"}
+ TableTypes = {"sym", "rel", "rela", "dyn", "u32", "u64", "versym"}
 CHECK_DEADLOCK FALSE
